@@ -388,7 +388,8 @@ class ModuleFinder:
             self.search_paths.append(path)
 
     def _extend_from_pth_files(self) -> None:
-        for path in self.search_paths:
+        # Like `site`, do not handle the `.pth` files of directories that were themselves added by a `.pth` file.
+        for path in list(self.search_paths):
             # Like `site`, handle the `.pth` files of a directory in sorted order, not in listing order.
             for item in sorted(self._contents(path)):
                 if item.suffix == ".pth":
